@@ -1,4 +1,5 @@
 import DigModel.Proofs.EngineRel
+import DigModel.Proofs.Body
 /-
   Frame properties of the resolver: it never touches the registry (scope tree,
   providers, decorators, graph holders, node descriptions), it only appends to
@@ -167,16 +168,10 @@ theorem regFrame_runCallback (cb : Option Nat) (who : Who) (fn start : Nat) (err
   · exact regFrame_emit _ _
   · exact RegFrame.refl _
 
-theorem bumpExec_fields (st : St) (f : Nat) :
-    (st.bumpExec f).scopes = st.scopes ∧ (st.bumpExec f).ctors = st.ctors ∧ (st.bumpExec f).decos = st.decos ∧
-    (st.bumpExec f).pgs = st.pgs ∧ (st.bumpExec f).log = st.log ∧ (st.bumpExec f).clock = st.clock := by
-  unfold St.bumpExec
-  split <;> exact ⟨rfl, rfl, rfl, rfl, rfl, rfl⟩
-
 theorem regFrame_callBody (ctx : Ctx) (who : Who) (fn : Fn) (args : List Val) (st : St) :
     RegFrame st (callBody ctx who fn args st).2 := by
   unfold callBody
-  obtain ⟨h1, h2, h3, h4, _, _⟩ := bumpExec_fields st fn.id
+  obtain ⟨h1, h2, h3, h4, _, _, _⟩ := bumpExec_fields st fn.id
   split
   · exact RegFrame.refl _
   · simp only
@@ -186,51 +181,45 @@ theorem regFrame_callBody (ctx : Ctx) (who : Who) (fn : Fn) (args : List Val) (s
         exact regFrame_of_same _ _ (by simp [St.emit, h1]) (by simp [St.emit, h2]) (by simp [St.emit, h3]) (by simp [St.emit, h4])
     · exact regFrame_of_same _ _ (by simp [St.emit, h1]) (by simp [St.emit, h2]) (by simp [St.emit, h3]) (by simp [St.emit, h4])
 
+theorem regFrame_ctorCommit (ctx : Ctx) (n : Nat) (node : CtorNode) (r : BodyRes) (st : St) :
+    RegFrame st (ctorCommit ctx n node r st) := by
+  have hc : ∀ ret : Ret, RegFrame st
+      ((st.modScope node.s fun sc => extractSlots ctx.env false ret sc node.results).modCtor n
+        fun y => { y with called := true }) := fun ret =>
+    RegFrame.trans (regFrame_modScope _ _ _ (fun x => extractSlots_reg _ _ _ _ x))
+      (regFrame_modCtor _ _ _ (fun x => ⟨rfl, rfl, rfl, rfl, rfl, rfl, rfl⟩))
+  unfold ctorCommit
+  cases r with
+  | dry => exact hc _
+  | ok x len => exact hc _
+  | err x out => exact RegFrame.refl _
+  | panic x => exact RegFrame.refl _
+
+theorem regFrame_decoCommit (ctx : Ctx) (d : Nat) (node : DecoNode) (r : BodyRes) (st : St) :
+    RegFrame st (decoCommit ctx d node r st) := by
+  have hc : ∀ ret : Ret, RegFrame st
+      ((st.modScope node.s fun sc => extractSlots ctx.env true ret sc node.results).modDeco d
+        fun y => { y with state := .called }) := fun ret =>
+    RegFrame.trans (regFrame_modScope _ _ _ (fun x => extractSlots_reg _ _ _ _ x))
+      (regFrame_modDeco _ _ _ (fun x => ⟨rfl, rfl, rfl, rfl, rfl⟩))
+  unfold decoCommit
+  cases r with
+  | dry => exact hc _
+  | ok x len => exact hc _
+  | err x out => exact RegFrame.refl _
+  | panic x => exact RegFrame.refl _
+
 theorem regFrame_ctorTail (ctx : Ctx) (st : St) (n : Nat) (node : CtorNode) (args : List Val) :
     RegFrame st (ctorTail ctx n node args st).2 := by
-  have hb := regFrame_callBody ctx (.ctor n) node.fn args st
-  cases h : callBody ctx (.ctor n) node.fn args st with
-  | mk r s1 =>
-    rw [h] at hb
-    simp only [ctorTail, h]
-    cases r with
-    | dry =>
-      simp only
-      refine hb.trans (RegFrame.trans ?_ (regFrame_runCallback _ _ _ _ _ _))
-      exact RegFrame.trans (regFrame_modScope _ _ _ (fun x => extractSlots_reg _ _ _ _ x))
-        (regFrame_modCtor _ _ _ (fun x => ⟨rfl, rfl, rfl, rfl, rfl, rfl, rfl⟩))
-    | ok x len =>
-      simp only
-      refine hb.trans (RegFrame.trans ?_ (regFrame_runCallback _ _ _ _ _ _))
-      exact RegFrame.trans (regFrame_modScope _ _ _ (fun x => extractSlots_reg _ _ _ _ x))
-        (regFrame_modCtor _ _ _ (fun x => ⟨rfl, rfl, rfl, rfl, rfl, rfl, rfl⟩))
-    | err x out => simp only; exact hb.trans (regFrame_runCallback _ _ _ _ _ _)
-    | panic x =>
-      simp only
-      split <;> exact hb.trans (regFrame_runCallback _ _ _ _ _ _)
+  unfold ctorTail
+  exact (regFrame_callBody ctx (.ctor n) node.fn args st).trans
+    ((regFrame_ctorCommit ctx n node _ _).trans (regFrame_runCallback _ _ _ _ _ _))
 
 theorem regFrame_decoTail (ctx : Ctx) (st : St) (d : Nat) (node : DecoNode) (args : List Val) :
     RegFrame st (decoTail ctx d node args st).2 := by
-  have hb := regFrame_callBody ctx (.deco d) node.fn args st
-  cases h : callBody ctx (.deco d) node.fn args st with
-  | mk r s1 =>
-    rw [h] at hb
-    simp only [decoTail, h]
-    cases r with
-    | dry =>
-      simp only
-      refine hb.trans (RegFrame.trans ?_ (regFrame_runCallback _ _ _ _ _ _))
-      exact RegFrame.trans (regFrame_modScope _ _ _ (fun x => extractSlots_reg _ _ _ _ x))
-        (regFrame_modDeco _ _ _ (fun x => ⟨rfl, rfl, rfl, rfl, rfl⟩))
-    | ok x len =>
-      simp only
-      refine hb.trans (RegFrame.trans ?_ (regFrame_runCallback _ _ _ _ _ _))
-      exact RegFrame.trans (regFrame_modScope _ _ _ (fun x => extractSlots_reg _ _ _ _ x))
-        (regFrame_modDeco _ _ _ (fun x => ⟨rfl, rfl, rfl, rfl, rfl⟩))
-    | err x out => simp only; exact hb.trans (regFrame_runCallback _ _ _ _ _ _)
-    | panic x =>
-      simp only
-      split <;> exact hb.trans (regFrame_runCallback _ _ _ _ _ _)
+  unfold decoTail
+  exact (regFrame_callBody ctx (.deco d) node.fn args st).trans
+    ((regFrame_decoCommit ctx d node _ _).trans (regFrame_runCallback _ _ _ _ _ _))
 
 theorem regFrame_leaf (ctx : Ctx) : LeafRel ctx RegFrame where
   refl := RegFrame.refl
@@ -283,20 +272,17 @@ theorem modScope_log (st : St) (s : Nat) (f : ScopeSt → ScopeSt) : (st.modScop
 theorem modCtor_log (st : St) (s : Nat) (f : CtorNode → CtorNode) : (st.modCtor s f).log = st.log := rfl
 theorem modDeco_log (st : St) (s : Nat) (f : DecoNode → DecoNode) : (st.modDeco s f).log = st.log := rfl
 
-/-- in a DryRun container the body is not run: the state is unchanged -/
-theorem callBody_dry (ctx : Ctx) (h : ctx.cfg.dry = true) (who : Who) (fn : Fn) (args : List Val) (st : St) :
-    callBody ctx who fn args st = (.dry, st) := by
-  unfold callBody; simp [h]
-
 theorem dryLog_ctorTail (ctx : Ctx) (h : ctx.cfg.dry = true) (st : St) (n : Nat) (node : CtorNode) (args : List Val) :
     LogExt isCb st (ctorTail ctx n node args st).2 := by
   simp only [ctorTail, callBody_dry ctx h]
-  exact LogExt.trans (logExt_of_log_eq _ _ rfl) (logExt_runCallback (fun _ _ _ _ _ => rfl) _ _ _ _ _ _)
+  exact LogExt.trans (logExt_of_log_eq _ _ (ctorCommit_fields ctx n node _ st).1)
+    (logExt_runCallback (fun _ _ _ _ _ => rfl) _ _ _ _ _ _)
 
 theorem dryLog_decoTail (ctx : Ctx) (h : ctx.cfg.dry = true) (st : St) (d : Nat) (node : DecoNode) (args : List Val) :
     LogExt isCb st (decoTail ctx d node args st).2 := by
   simp only [decoTail, callBody_dry ctx h]
-  exact LogExt.trans (logExt_of_log_eq _ _ rfl) (logExt_runCallback (fun _ _ _ _ _ => rfl) _ _ _ _ _ _)
+  exact LogExt.trans (logExt_of_log_eq _ _ (decoCommit_fields ctx d node _ st).1)
+    (logExt_runCallback (fun _ _ _ _ _ => rfl) _ _ _ _ _ _)
 
 theorem dryLog_leaf (ctx : Ctx) (h : ctx.cfg.dry = true) : LeafRel ctx (LogExt isCb) where
   refl := LogExt.refl _
